@@ -3,13 +3,14 @@
 package config
 
 import (
-	"encoding/json"
 	"bytes"
 	"encoding/base64"
+	"encoding/json"
 	"fmt"
 	"math"
 	"os"
 	"sort"
+	"sync"
 	"testing"
 	"time"
 
@@ -74,17 +75,17 @@ type prsPDzEnt struct {
 }
 
 type prsPSubKeys struct {
-	Sub []int     `json:"sub"`
+	Sub []int        `json:"sub"`
 	Map []prsPKeyEnt `json:"map"`
 }
 
 type prsPSubAnalog struct {
-	Sub []int        `json:"sub"`
+	Sub []int           `json:"sub"`
 	Map []prsPAnalogEnt `json:"map"`
 }
 
 type prsPSubDz struct {
-	Sub []int    `json:"sub"`
+	Sub []int       `json:"sub"`
 	Map []prsPDzEnt `json:"map"`
 }
 
@@ -94,7 +95,7 @@ type prsPSubDef struct {
 }
 
 type prsPMapping struct {
-	Name   []int        `json:"name"`
+	Name   []int           `json:"name"`
 	Midi   []prsPSubKeys   `json:"midi"`
 	Analog []prsPSubAnalog `json:"analog"`
 	Dz     []prsPSubDz     `json:"dz"`
@@ -107,14 +108,14 @@ type prsPAction struct {
 }
 
 type prsPConfig struct {
-	ID       [4]int     `json:"id"`
-	Uniq     []int      `json:"uniq"`
+	ID       [4]int        `json:"id"`
+	Uniq     []int         `json:"uniq"`
 	Mappings []prsPMapping `json:"mappings"`
 	Actions  []prsPAction  `json:"actions"`
-	Exit     []int      `json:"exit"`
-	CMode    string     `json:"cmode"`
-	Defaults [5]int     `json:"defaults"` // octave semitone channel mapping velocity
-	Colors   [7][3]int  `json:"colors"`   // white black c unavailable other active active_external
+	Exit     []int         `json:"exit"`
+	CMode    string        `json:"cmode"`
+	Defaults [5]int        `json:"defaults"` // octave semitone channel mapping velocity
+	Colors   [7][3]int     `json:"colors"`   // white black c unavailable other active active_external
 }
 
 func prsSortedSubs[V any](m map[string]V) []string {
@@ -211,7 +212,7 @@ type prsTStrStr struct {
 }
 
 type prsTAxisEnt struct {
-	K []int `json:"k"`
+	K []int    `json:"k"`
 	V prsTAxis `json:"v"`
 }
 
@@ -221,35 +222,35 @@ type prsTDzEnt struct {
 }
 
 type prsTKeySub struct {
-	Sub []int     `json:"sub"`
+	Sub []int        `json:"sub"`
 	Map []prsTStrStr `json:"map"`
 }
 
 type prsTAnalogSub struct {
-	Sub   []int      `json:"sub"`
-	DefDz uint64     `json:"defdz"`
+	Sub   []int         `json:"sub"`
+	DefDz uint64        `json:"defdz"`
 	Map   []prsTAxisEnt `json:"map"`
 	Dz    []prsTDzEnt   `json:"dz"`
 }
 
 type prsTMapping struct {
-	Name   []int        `json:"name"`
+	Name   []int           `json:"name"`
 	Keys   []prsTKeySub    `json:"keys"`
 	Analog []prsTAnalogSub `json:"analog"`
 }
 
 type prsTConfig struct {
-	CMode    []int      `json:"cmode"`
-	Exit     [][]int    `json:"exit"`
-	Ident    [4]int     `json:"ident"`
-	Uniq     []int      `json:"uniq"`
-	Octave   int        `json:"octave"`
-	Semitone int        `json:"semitone"`
-	Channel  int        `json:"channel"`
-	DefMap   []int      `json:"defmap"`
-	Velocity int        `json:"velocity"`
+	CMode    []int         `json:"cmode"`
+	Exit     [][]int       `json:"exit"`
+	Ident    [4]int        `json:"ident"`
+	Uniq     []int         `json:"uniq"`
+	Octave   int           `json:"octave"`
+	Semitone int           `json:"semitone"`
+	Channel  int           `json:"channel"`
+	DefMap   []int         `json:"defmap"`
+	Velocity int           `json:"velocity"`
 	Actions  []prsTStrStr  `json:"actions"`
-	RGB      [7]int     `json:"rgb"`
+	RGB      [7]int        `json:"rgb"`
 	Mappings []prsTMapping `json:"mappings"`
 }
 
@@ -313,11 +314,11 @@ func prsCanonDecoded(c *TOMLDeviceConfig) *prsTConfig {
 // ---- running
 
 type prsParserRes struct {
-	Class    string   `json:"class"` // ok | error | panic | hang
-	Err      string   `json:"err,omitempty"`
+	Class    string      `json:"class"` // ok | error | panic | hang
+	Err      string      `json:"err,omitempty"`
 	Cfg      *prsPConfig `json:"cfg,omitempty"`
-	DecClass string   `json:"dec_class"` // ok | error | panic | hang   (bare decoder = oracle)
-	DecErr   string   `json:"dec_err,omitempty"`
+	DecClass string      `json:"dec_class"` // ok | error | panic | hang   (bare decoder = oracle)
+	DecErr   string      `json:"dec_err,omitempty"`
 	Dec      *prsTConfig `json:"dec,omitempty"`
 }
 
@@ -420,37 +421,57 @@ func verifParser(t *testing.T) {
 		out.Results = append(out.Results, prsParserRes{Class: impl.class, Err: prsCut(impl.msg), Cfg: impl.cfg,
 			DecClass: orac.class, DecErr: prsCut(orac.msg), Dec: orac.dec})
 	}
-	// second pass over a spread of the inputs (every k-th, at most 4000): same bytes, same answer
+	// second pass over a spread of the inputs (every k-th, at most 4000): same bytes, same answer - this time from 8 goroutines at
+	// once, each parsing other documents (configurations are parsed from more than one goroutine; a parser that keeps scratch state
+	// between or across calls answers differently here)
 	out.Unstable = []int{}
 	step := len(in.Inputs)/4000 + 1
+	var picks []int
 	for i := 0; i < len(in.Inputs); i += step {
-		first := out.Results[i]
-		if first.Class == "hang" || first.Class == "panic" {
-			continue
-		}
-		data, _ := base64.StdEncoding.DecodeString(in.Inputs[i])
-		again := prsUnderWatchdog(wd, func() prsCallRes {
-			c, err := ParseData(append([]byte{}, data...))
-			if err != nil {
-				return prsCallRes{class: "error", msg: err.Error()}
-			}
-			r := prsCallRes{class: "ok"}
-			if in.WantConfig {
-				r.cfg = prsCanonConfig(c)
-			}
-			return r
-		})
-		out.Rerun++
-		same := again.class == first.Class // (the error TEXT may differ: which of several errors is reported follows Go's map iteration order)
-		if same && in.WantConfig && first.Cfg != nil && again.cfg != nil {
-			a, _ := json.Marshal(first.Cfg)
-			b, _ := json.Marshal(again.cfg)
-			same = string(a) == string(b)
-		}
-		if !same {
-			out.Unstable = append(out.Unstable, i)
+		if out.Results[i].Class != "hang" && out.Results[i].Class != "panic" {
+			picks = append(picks, i)
 		}
 	}
+	const G = 8
+	unstable := make([][]int, G)
+	var wg sync.WaitGroup
+	for g := 0; g < G; g++ {
+		wg.Add(1)
+		go func(g int) {
+			defer wg.Done()
+			for k := g; k < len(picks); k += G {
+				i := picks[k]
+				first := out.Results[i]
+				data, _ := base64.StdEncoding.DecodeString(in.Inputs[i])
+				again := prsUnderWatchdog(wd, func() prsCallRes {
+					c, err := ParseData(append([]byte{}, data...))
+					if err != nil {
+						return prsCallRes{class: "error", msg: err.Error()}
+					}
+					r := prsCallRes{class: "ok"}
+					if in.WantConfig {
+						r.cfg = prsCanonConfig(c)
+					}
+					return r
+				})
+				same := again.class == first.Class // (the error TEXT may differ: which of several errors is reported follows Go's map iteration order)
+				if same && in.WantConfig && first.Cfg != nil && again.cfg != nil {
+					a, _ := json.Marshal(first.Cfg)
+					b, _ := json.Marshal(again.cfg)
+					same = string(a) == string(b)
+				}
+				if !same {
+					unstable[g] = append(unstable[g], i)
+				}
+			}
+		}(g)
+	}
+	wg.Wait()
+	out.Rerun = len(picks)
+	for g := 0; g < G; g++ {
+		out.Unstable = append(out.Unstable, unstable[g]...)
+	}
+	sort.Ints(out.Unstable)
 	if progress != nil {
 		progress.Close()
 		os.Remove(progress.Name())
@@ -468,10 +489,10 @@ type prsNameCode struct {
 type prsTablesOut struct {
 	Keys    []prsNameCode `json:"keys"`
 	Abs     []prsNameCode `json:"abs"`
-	Actions [][]int    `json:"actions"` // SupportedActions entries with value true
-	Types   [][]int    `json:"types"`
-	CModes  [][]int    `json:"cmodes"`
-	False   int        `json:"false_entries"` // entries of the Supported* maps whose value is false (must be 0)
+	Actions [][]int       `json:"actions"` // SupportedActions entries with value true
+	Types   [][]int       `json:"types"`
+	CModes  [][]int       `json:"cmodes"`
+	False   int           `json:"false_entries"` // entries of the Supported* maps whose value is false (must be 0)
 }
 
 func verifParserTables(t *testing.T) {
